@@ -3,7 +3,7 @@
 #   demo passes on original, lib tests pass with patch, demo fails with patch.  Writes /tmp/seed/<id>/verify.json
 id=$1
 wt=/tmp/seed/$id/wt; out=/tmp/seed/$id/out; log=/tmp/seed/$id/verify.log
-export CARGO_NET_OFFLINE=true CARGO_TARGET_DIR=/tmp/seed/vtarget
+export CARGO_NET_OFFLINE=true CARGO_TARGET_DIR=/tmp/seed/vtarget; [ -d /tmp/seed/$id/target ] && export CARGO_TARGET_DIR=/tmp/seed/$id/target
 : > $log
 cd $wt || exit 2
 git checkout -q -- src
